@@ -78,7 +78,7 @@ def enumerate_cases(tier, shard=0, nshards=1):
                 # evaluate everything twice: idempotence
                 yield {'fixed': mi, 'nev': nev, 'schedule': sched + sched}
     n = 3000 if tier == 'quick' else 60000
-    for k in range(3):
+    for k in range(5):
         i += 1
         if i % nshards == shard:
             yield {'memory': k, 'n': n}
@@ -215,11 +215,27 @@ def _memory(case, res):
     import tracemalloc
     xl = lib.lib()
     k, n = case['memory'], case['n']
-    model = FIXED[0] if k != 1 else FIXED[1]
-    m = lib.compile_dict(GM.to_dict(model))
-    evs = [xl.Evaluator(m)] if k != 2 else [xl.Evaluator(m),
-                                            xl.Evaluator(m)]
-    cells = sorted(model['formulas'])
+    if k >= 3:
+        # error VALUES (literal, computed, NA()) that are reached and flow
+        # into list-typed arguments and ranges, again and again
+        d = {'Sheet1!A1': 5,
+             'Sheet1!B1': '=IF(A1>3,IF(A1>7,0,#N/A),2)',
+             'Sheet1!B2': '=1/0', 'Sheet1!B3': '=NA()', 'Sheet1!B4': 3,
+             'Sheet1!C1': '=SUM(B1,B4,2)', 'Sheet1!C2': '=MAX(B2:B4)',
+             'Sheet1!C3': '=B3&"x"', 'Sheet1!C4': '=SUM(B4,B3)+#REF!',
+             'Sheet1!C5': '=IF(ISNA(C1),1,2)'}
+        if k == 4:
+            d['Sheet1!B1'] = '=#VALUE!'
+            d['Sheet1!C1'] = '=AVERAGE(B4,B1,B1)'
+        m = lib.compile_dict(d)
+        cells = ['Sheet1!C%d' % i for i in range(1, 6)]
+        evs = [xl.Evaluator(m)]
+    else:
+        model = FIXED[0] if k != 1 else FIXED[1]
+        m = lib.compile_dict(GM.to_dict(model))
+        evs = [xl.Evaluator(m)] if k != 2 else [xl.Evaluator(m),
+                                                xl.Evaluator(m)]
+        cells = sorted(model['formulas'])
 
     def sweeps(count):
         for i in range(count):
